@@ -18,6 +18,7 @@ fn enum_program(name: &str, values: &[String]) -> (SchemaDoc, QueryDoc) {
             TypeDef::Object { name: "Query".into(), implements: vec![], fields: vec![FieldDef::new("e", GType::named(name))] },
         ],
         schema_block: None,
+        input_defaults: vec![],
     };
     let doc = QueryDoc {
         defs: vec![QDef::Op {
